@@ -35,6 +35,8 @@ def trees():
         R("VMany", {}, "b", items=(R("VReq", {}, "a", child=L(13)), R("VOne", {}, "xml", one=L(14)), L(15, "c"))),
         # properties that are no constructor arguments (a per-instance stamp, a constant, a counter, a computed value)
         R("VMany", {}, "a", items=(R("VStamp", {"v": 1}, None, kid=L(16)), R("VNonInit", {"v": 2}), R("VSerial", {"name": "t"}, "b"))),
+        # a child that its class derives itself (a field that is no constructor argument)
+        R("VMany", {}, "a", items=(R("VDerived", {"name": "foo"}), L(17))),
         # property values that serialization passes through by reference: containers inside an Any-typed property
         R("VReq", {}, "a", child=R("VTyped", {"a": {"k": (1, 2), "inner": {"t": (3, (4,))}, "l": [5, (6,)]}, "t": (7, 8)})),
     ]
@@ -97,6 +99,8 @@ def _ops():
             return [type(node).__name__] + [x for c in node.get_child_nodes() for x in self.visit(c)]
 
     def safe(fn):
+        # (this check is about modification only: whether an operation may raise is the business of the
+        # property that specifies the operation - C09, C14 ...)
         def run(*a):
             try:
                 return fn(*a)
@@ -116,11 +120,12 @@ def _ops():
         "tree-queries": tree_queries, "find": lambda r, n: r.find("//VLeaf"), "findall": lambda r, n: list(r.findall("//@items[0]")) if False else list(r.findall("//@items[0]VBase")),
         "xpath-match": lambda r, n: ASTXpath("//VLeaf").match(r, n), "pattern": lambda r, n: NodeMatcher.from_pattern("(* @v -> x)")[0].match(n),
         "multi-pattern": lambda r, n: MultiPatternMatcher([("a", "(VMixed @items=[* -> t])"), ("b", "(*)")]).match(n),
-        "visit": lambda r, n: Collect().visit(r), "transform-rewrite": lambda r, n: Rewrite().transform(r), "transform-remove": lambda r, n: Remove().transform(r),
+        "visit": lambda r, n: Collect().visit(r), "transform-rewrite": safe(lambda r, n: Rewrite().transform(r)), "transform-remove": safe(lambda r, n: Remove().transform(r)),
         "transform-raises": safe(lambda r, n: Raises().transform(r)),
+
         "transform-rewrites-one-leaf-then-raises-at-the-third": safe(lambda r, n: partial(3)().transform(r)),
         "transform-rewrites-one-leaf-then-raises-at-the-second": safe(lambda r, n: partial(2)().transform(r)),
-        "transform-rewrites-one-leaf-then-raises-at-the-fourth": safe(lambda r, n: partial(4)().transform(r)), "transform-returns-existing-nodes": lambda r, n: Unwrap().transform(r), "duplicate": lambda r, n: n.duplicate(),
+        "transform-rewrites-one-leaf-then-raises-at-the-fourth": safe(lambda r, n: partial(4)().transform(r)), "transform-returns-existing-nodes": safe(lambda r, n: Unwrap().transform(r)), "duplicate": safe(lambda r, n: n.duplicate()),
         "replace": lambda r, n: n.replace(origin=n.origin), "replace-raises": safe(lambda r, n: n.replace(no_such=1)),
         "replace-rejected-by-subclass-validation": safe(lambda r, n: n.replace(note="bad")),
         "dataclasses.replace-rejected-by-subclass-validation": safe(lambda r, n: dc.replace(n, note="bad")),
